@@ -21,6 +21,19 @@
 //
 // Sort values are plain numbers or plain words throughout (no calendar names:
 // known finding contextual-mixture).
+//
+// Sort kind "none": NO --sort expression, 1..3 group columns of DIFFERENT kinds
+// (one column weekday names, another status-code-like numbers, a third plain
+// words). Every column on its own is uniform - all weekday names, all month
+// names, or no calendar name at all - so with one column this is the documented
+// contextual order, and with several columns it is NOT the contextual-mixture
+// class: the sorter is handed whole group keys, and a key of several columns is
+// never a calendar name. Asserted there: one sequence per direction for every
+// arrival order, read and run; the reversed sequence is the exact mirror (group
+// keys are distinct); with ONE column the forward order follows the calendar /
+// magnitude / dictionary rules of the model. How keys of several columns are
+// ordered among each other (as one string, column by column) is not stated and
+// not asserted.
 package c13
 
 import (
@@ -43,7 +56,7 @@ type ReduceCase struct {
 	Parts [][]pbt.S // Parts[g]: the 1 or 2 group values of group g (same arity for all, distinct)
 	Incs  [][]int64 // Incs[g]: the numbers of the lines of group g (>= 1 line each)
 	Perms [][]int   // arrival orders of the lines
-	Sort  string    // n | s | const | lohi | part0 | part1
+	Sort  string    // n | s | const | lohi | part0 | part1 | none (no --sort expression: group order)
 	Const string    `json:",omitempty"`
 	Cut   int       // in-process: the groups are also read after this many lines
 	Files int       `json:",omitempty"` // cli: the lines are spread over this many files
@@ -85,6 +98,8 @@ func (c ReduceCase) sortExpr() (string, []string, error) {
 			if sum(g) < lohiSplit {
 				vals[g] = "lo"
 			}
+		case "none":
+			expr, vals[g] = "", strings.Join(pbt.Strs(c.Parts[g]), "|") // the group itself (distinct; no NUL in messages)
 		case "part0":
 			expr, vals[g] = "{0}", string(c.Parts[g][0])
 		case "part1":
@@ -114,12 +129,48 @@ func plainPart(s string) bool {
 	return ok && len(s) <= 12 && !strings.ContainsAny(s, "eE+")
 }
 
+// columnKind: what one group column holds throughout: "weekdays", "months",
+// "plain" (plain words / plain numbers, no calendar name), or "" (a mixture or
+// something else: not a column this sub-property is about).
+func (c ReduceCase) columnKind(col int) string {
+	wd, mo, pl := true, true, true
+	for _, p := range c.Parts {
+		x := string(p[col])
+		if _, ok := weekdayOf(x); !ok {
+			wd = false
+		}
+		if _, ok := monthOf(x); !ok {
+			mo = false
+		}
+		if !plainPart(x) {
+			pl = false
+		}
+	}
+	switch {
+	case pl:
+		return "plain"
+	case wd:
+		return "weekdays"
+	case mo:
+		return "months"
+	}
+	return ""
+}
+
+func (c ReduceCase) columnKinds() []string {
+	out := make([]string, c.arity())
+	for i := range out {
+		out[i] = c.columnKind(i)
+	}
+	return out
+}
+
 func (c ReduceCase) validate() error {
 	if len(c.Parts) < 1 || len(c.Parts) != len(c.Incs) {
 		return fmt.Errorf("bad case: %d groups, %d line lists", len(c.Parts), len(c.Incs))
 	}
 	ar := c.arity()
-	if ar < 1 || ar > 2 {
+	if ar < 1 || ar > 3 {
 		return fmt.Errorf("bad case: %d group values", ar)
 	}
 	seen := map[string]bool{}
@@ -128,7 +179,7 @@ func (c ReduceCase) validate() error {
 			return fmt.Errorf("bad case: group %d has %d values, group 0 has %d", g, len(p), ar)
 		}
 		for _, x := range p {
-			if !plainPart(string(x)) {
+			if !plainPart(string(x)) && !(c.Sort == "none" && isName(string(x))) {
 				return fmt.Errorf("bad case: group value %q is not a plain word or plain number", string(x))
 			}
 		}
@@ -143,6 +194,13 @@ func (c ReduceCase) validate() error {
 		for _, v := range c.Incs[g] {
 			if v < -1000 || v > 1000 {
 				return fmt.Errorf("bad case: number %d", v)
+			}
+		}
+	}
+	if c.Sort == "none" {
+		for col, k := range c.columnKinds() {
+			if k == "" {
+				return fmt.Errorf("bad case: group column %d mixes calendar names with other values (known finding %s reaches it when it is the only column)", col, kfContextual)
 			}
 		}
 	}
@@ -203,10 +261,20 @@ func (c ReduceCase) checkDirections(what, expr string, sv map[string]string, fwd
 			seen[g] = true
 		}
 	}
-	// forward: magnitude order of plain numbers / dictionary order of plain words
+	// forward: magnitude order of plain numbers / dictionary order of plain words;
+	// without --sort and with ONE group column: the contextual rules (calendar
+	// order of a column of names); several columns: not stated
+	rule := numericRule
+	if c.Sort == "none" {
+		ks := summarise(fwd, "")
+		rule = func(a, b string) int { return contextualRule(ks, a, b) }
+		if c.arity() > 1 {
+			rule = func(a, b string) int { return noSay }
+		}
+	}
 	for i := 0; i < n; i++ {
 		for j := i + 1; j < n; j++ {
-			if numericRule(sv[fwd[i]], sv[fwd[j]]) == bFirst {
+			if rule(sv[fwd[i]], sv[fwd[j]]) == bFirst {
 				return fmt.Errorf("%s --sort %s: group %q (sort value %s) is shown before %q (sort value %s)\n rows: %s", what, expr,
 					strings.ReplaceAll(fwd[i], "\x00", "|"), sv[fwd[i]], strings.ReplaceAll(fwd[j], "\x00", "|"), sv[fwd[j]], showWithValues(fwd, sv))
 			}
@@ -258,9 +326,13 @@ func checkReduce(c ReduceCase) error {
 	if err := c.validate(); err != nil {
 		return err
 	}
-	expr, vals, err := c.sortExpr()
+	exprArg, vals, err := c.sortExpr()
 	if err != nil {
 		return err
+	}
+	expr := exprArg
+	if expr == "" {
+		expr = "<none: group order>" // in messages
 	}
 	sv := c.valuesByGroup(vals)
 	pc := PermCase{Incs: c.Incs}
@@ -280,8 +352,10 @@ func checkReduce(c ReduceCase) error {
 		if err := acc.AddDataExpr("n", "{sumi {.} 1}", "0"); err != nil {
 			return nil, err
 		}
-		if err := acc.SetSort(expr); err != nil {
-			return nil, err
+		if exprArg != "" {
+			if err := acc.SetSort(exprArg); err != nil {
+				return nil, err
+			}
 		}
 		return acc, nil
 	}
@@ -368,8 +442,41 @@ func checkReduce(c ReduceCase) error {
 func classifyReduce(c ReduceCase) (bool, []string) {
 	labels := []string{"sort:" + c.Sort, fmt.Sprintf("group-values:%d", c.arity())}
 	_, vals, err := c.sortExpr()
-	if err != nil {
+	if err != nil || len(vals) == 0 {
 		return false, labels
+	}
+	if c.Sort == "none" {
+		// group order: non-trivial when the columns are of different kinds, one of
+		// them calendar names, and two groups share the first column
+		kinds := c.columnKinds()
+		names, other := false, false
+		for _, k := range kinds {
+			if k == "weekdays" || k == "months" {
+				names = true
+			} else {
+				other = true
+			}
+		}
+		first := map[string]int{}
+		shared := false
+		for _, p := range c.Parts {
+			first[string(p[0])]++
+			if first[string(p[0])] >= 2 {
+				shared = true
+			}
+		}
+		labels = append(labels, "columns:"+strings.Join(kinds, "+"))
+		if names && other {
+			labels = append(labels, "group-order:names-column-next-to-other-column")
+		}
+		if c.Files > 0 {
+			labels = append(labels, fmt.Sprintf("files:%d", c.Files))
+		}
+		labels = append(labels, c.Obs.All()...)
+		if c.arity() == 1 {
+			return len(vals) >= 4 && len(c.Perms) >= 2 && permsDiffer(c.Perms), labels
+		}
+		return len(vals) >= 4 && names && other && shared && len(c.Perms) >= 2 && permsDiffer(c.Perms), labels
 	}
 	count := map[string]int{}
 	for _, v := range vals {
@@ -437,7 +544,82 @@ func genPlain(t *rapid.T, numbers bool, few bool) string {
 	return rapid.SampledFrom(reduceWords).Draw(t, "word")
 }
 
+// genColumnValue: one value of a group column of the given kind; few: from a
+// handful of values, so that several groups share it.
+func genColumnValue(t *rapid.T, kind string, few bool) string {
+	switch kind {
+	case "weekdays":
+		if few {
+			return rapid.SampledFrom([]string{"mon", "tue", "Sat", "friday"}).Draw(t, "fewDay")
+		}
+		return genWeekday(t)
+	case "months":
+		if few {
+			return rapid.SampledFrom([]string{"jan", "feb", "Dec", "august"}).Draw(t, "fewMonth")
+		}
+		return genMonth(t)
+	case "codes":
+		return rapid.SampledFrom([]string{"200", "201", "204", "301", "302", "404", "500", "503", "99", "1000"}).Draw(t, "code")
+	case "numbers":
+		return genPlain(t, true, few)
+	}
+	return genPlain(t, false, few)
+}
+
+// genGroupOrder: no --sort expression; 1..3 group columns, each uniform, of
+// different kinds (calendar names next to numbers / words).
+func genGroupOrder(t *rapid.T, cli bool) ReduceCase {
+	c := ReduceCase{Obs: pbt.NewObs(), Sort: "none"}
+	ar := rapid.SampledFrom([]int{1, 2, 2, 2, 3, 3}).Draw(t, "groupValues")
+	kinds := make([]string, ar)
+	for i := range kinds {
+		kinds[i] = rapid.SampledFrom([]string{"weekdays", "months", "codes", "numbers", "words"}).Draw(t, "columnKind")
+	}
+	if ar >= 2 && rapid.IntRange(0, 3).Draw(t, "namesFirst") != 0 {
+		kinds[0] = rapid.SampledFrom([]string{"weekdays", "months"}).Draw(t, "firstKind")
+		if kinds[1] == kinds[0] {
+			kinds[1] = rapid.SampledFrom([]string{"codes", "numbers", "words"}).Draw(t, "secondKind")
+		}
+	}
+	n := rapid.IntRange(2, 14).Draw(t, "nGroups")
+	if n < 6 && rapid.IntRange(0, 3).Draw(t, "grow") != 0 {
+		n += 5
+	}
+	seen := map[string]bool{}
+	for i := 0; i < n; i++ {
+		p := make([]string, ar)
+		for col := range p {
+			p[col] = genColumnValue(t, kinds[col], ar >= 2 && col == 0) // the first of several columns is shared by several groups
+		}
+		k := strings.Join(p, "\x00")
+		if seen[k] {
+			continue
+		}
+		seen[k] = true
+		c.Parts = append(c.Parts, pbt.SS(p))
+		m := rapid.SampledFrom([]int{1, 1, 1, 2}).Draw(t, "nLines")
+		var incs []int64
+		for j := 0; j < m; j++ {
+			incs = append(incs, rapid.Int64Range(-1, 3).Draw(t, "inc"))
+		}
+		c.Incs = append(c.Incs, incs)
+	}
+	pc := PermCase{Incs: c.Incs}
+	ns := len(pc.samples())
+	if cli {
+		c.Perms = genPerms(t, ns, 2, 3)
+		c.Files = rapid.IntRange(1, 3).Draw(t, "files")
+	} else {
+		c.Perms = genPerms(t, ns, 2, 4)
+		c.Cut = rapid.IntRange(0, ns-1).Draw(t, "cut")
+	}
+	return c
+}
+
 func genReduce(t *rapid.T, cli bool) ReduceCase {
+	if rapid.IntRange(0, 3).Draw(t, "groupOrder") == 0 {
+		return genGroupOrder(t, cli)
+	}
 	c := ReduceCase{Obs: pbt.NewObs()}
 	ar := rapid.IntRange(1, 2).Draw(t, "groupValues")
 	n := rapid.IntRange(2, 12).Draw(t, "nGroups")
@@ -489,7 +671,7 @@ func genReduce(t *rapid.T, cli bool) ReduceCase {
 
 var reduceSpec = pbt.Spec[ReduceCase]{
 	Property: prop, Name: "reduce",
-	Rule:   "AccumulatingGroup as `rare reduce` sets it up: 2..12 groups of 1 or 2 group values (plain words / plain numbers; with 2 values the first is one of 3, shared by several groups), data columns s (sum of -1..3 per line) and n (lines), 1..3 lines per group in 2..4 arrival orders, SetSort(expr) with expr from {n} | {s} | a constant | {if {lt {s} 2} lo hi} | {0} | {1} so that groups TIE on the sort value; read with sorting.ByContextual() and with sorting.Reverse(sorting.ByContextual()) exactly as cmd/reduce.go builds them (one sorter per run: during the run, three times at the end; and one accumulator alternately in both directions and with sorting.ByName as the csv export does). One sequence per direction for every arrival order and every read; groups with different sort values are in opposite order in the two directions (exact mirror without ties) and follow magnitude / dictionary order forward; which tied group comes first is not asserted, only that it never changes. Non-trivial: >=4 groups, >=2 tied on the sort value, >=2 arrival orders that differ",
+	Rule:   "AccumulatingGroup as `rare reduce` sets it up: 2..12 groups of 1 or 2 group values (plain words / plain numbers; with 2 values the first is one of 3, shared by several groups), data columns s (sum of -1..3 per line) and n (lines), 1..3 lines per group in 2..4 arrival orders, SetSort(expr) with expr from {n} | {s} | a constant | {if {lt {s} 2} lo hi} | {0} | {1} so that groups TIE on the sort value; read with sorting.ByContextual() and with sorting.Reverse(sorting.ByContextual()) exactly as cmd/reduce.go builds them (one sorter per run: during the run, three times at the end; and one accumulator alternately in both directions and with sorting.ByName as the csv export does). One sequence per direction for every arrival order and every read; groups with different sort values are in opposite order in the two directions (exact mirror without ties) and follow magnitude / dictionary order forward; which tied group comes first is not asserted, only that it never changes. One case in four has NO sort expression (sort kind none: reduce's group order): 1..3 group columns, each uniform but of different kinds (weekday names | month names | status-code-like numbers | plain numbers | plain words; with several columns the first is one of 4 values shared by several groups), up to 14 groups; one sequence per direction for every arrival order and read, the reversed sequence the exact mirror, with one column the calendar / magnitude / dictionary order of the contextual mode; how keys of several columns are ordered among each other is not asserted (label group-order:names-column-next-to-other-column). Non-trivial: >=4 groups, >=2 tied on the sort value, >=2 arrival orders that differ; for the group order: >=4 groups, a calendar-name column next to another kind, two groups sharing the first column (or one column), >=2 arrival orders that differ",
 	Budget: pbt.Budget{Quick: 3000, Thorough: 160000},
 	Gen:    func(t *rapid.T) ReduceCase { return genReduce(t, false) },
 	Check:  checkReduce, Classify: classifyReduce,
@@ -550,9 +732,13 @@ func checkReduceCli(c ReduceCase) error {
 			}
 		}
 	}
-	expr, vals, err := c.sortExpr()
+	exprArg, vals, err := c.sortExpr()
 	if err != nil {
 		return err
+	}
+	expr := exprArg
+	if expr == "" {
+		expr = "<none: group order>" // in messages
 	}
 	sv := c.valuesByGroup(vals)
 	pc := PermCase{Incs: c.Incs}
@@ -574,12 +760,15 @@ func checkReduceCli(c ReduceCase) error {
 	defer os.RemoveAll(dir)
 
 	base := []string{"--nocolor", "--noformat", "reduce"}
-	opts := []string{"--rows", fmt.Sprint(len(c.Parts) + 3), "--sort", expr}
-	if ar == 1 {
-		opts = append(opts, "-m", `^(\S+) (-?\d+)$`, "-g", "g0={1}", "-a", "s={sumi {.} {2}}", "-a", "n={sumi {.} 1}")
-	} else {
-		opts = append(opts, "-m", `^(\S+) (\S+) (-?\d+)$`, "-g", "g0={1}", "-g", "g1={2}", "-a", "s={sumi {.} {3}}", "-a", "n={sumi {.} 1}")
+	opts := []string{"--rows", fmt.Sprint(len(c.Parts) + 3)}
+	if exprArg != "" {
+		opts = append(opts, "--sort", exprArg)
 	}
+	opts = append(opts, "-m", "^"+strings.Repeat(`(\S+) `, ar)+`(-?\d+)$`)
+	for i := 0; i < ar; i++ {
+		opts = append(opts, "-g", fmt.Sprintf("g%d={%d}", i, i+1))
+	}
+	opts = append(opts, "-a", fmt.Sprintf("s={sumi {.} {%d}}", ar+1), "-a", "n={sumi {.} 1}")
 	var refF, refR, refC []string
 	for pi, perm := range c.Perms {
 		bufs := make([]bytes.Buffer, files)
@@ -646,7 +835,7 @@ func checkReduceCli(c ReduceCase) error {
 
 var reduceCliSpec = pbt.Spec[ReduceCase]{
 	Property: prop, Name: "reduce-cli",
-	Rule:   "`rare reduce --snapshot -g .. [-g ..] -a s={sumi {.} {k}} -a n={sumi {.} 1} --sort <expr> [--sort-reverse]` and `-o -` (csv) on 1..3 files holding the lines of the `reduce` sub-property's data (sort values tie) in 2..3 arrival orders, the first order run twice: one row sequence per direction (and one for the csv) in every run; groups with different sort values in opposite order with and without --sort-reverse (exact mirror without ties), plain numbers in magnitude order, plain words in dictionary order. Non-trivial as in `reduce`",
+	Rule:   "`rare reduce --snapshot -g .. [-g ..] -a s={sumi {.} {k}} -a n={sumi {.} 1} --sort <expr> [--sort-reverse]` and `-o -` (csv) on 1..3 files holding the lines of the `reduce` sub-property's data (sort values tie) in 2..3 arrival orders, the first order run twice: one row sequence per direction (and one for the csv) in every run; groups with different sort values in opposite order with and without --sort-reverse (exact mirror without ties), plain numbers in magnitude order, plain words in dictionary order; one case in four without --sort on 1..3 -g columns of different kinds (calendar names next to numbers / words) as in `reduce`. Non-trivial as in `reduce`",
 	Budget: pbt.Budget{Quick: 60, Thorough: 2400},
 	Gen:    func(t *rapid.T) ReduceCase { return genReduce(t, true) },
 	Check:  checkReduceCli, Classify: classifyReduce,
